@@ -47,7 +47,8 @@ func c09Program(length int) {
 	tr := &c09Trace{}
 	sub := &scriptedSubscriber{}
 	hf := func(m *Message) error { tr.ev = append(tr.ev, 0); return nil }
-	hA := r.AddNoPublisherHandler("A", "ta", sub, hf)
+	nameA := vrt.PickStr("nameA", "A", "") // handler names are arbitrary strings; the empty name is legal
+	hA := r.AddNoPublisherHandler(nameA, "ta", sub, hf)
 	var hB *Handler
 	addBAt := vrt.Int("addB.at", 0, length) // handler B is added before program step addB.at
 	kinds := make([]int, length)
@@ -120,20 +121,27 @@ func HarnessC09PublisherDecorators() {
 		r.AddPublisherDecorators(MessageTransformPublisherDecorator(func(m *Message) { tr.ev = append(tr.ev, i) }))
 	}
 	pub := &scriptedPublisher{}
-	r.AddHandler("A", "ta", &scriptedSubscriber{}, "out", pub, PassthroughHandler)
-	h := r.handlers["A"]
-	vrt.Assert(r.decorateHandlerPublisher(h) == nil, "decorators applied")
-	msg := NewMessage("m", nil)
-	vrt.Assert(h.publisher.Publish("out", msg) == nil, "publish through the decorated publisher")
-	ok := len(tr.ev) == n
-	for i := 0; ok && i < n; i++ {
-		if tr.ev[i] != i {
-			ok = false
-		}
+	// several handlers on one router: every one of them gets the decorators in the same order
+	names := []string{"A", "B", "C"}
+	for _, nm := range names {
+		r.AddHandler(nm, "t"+nm, &scriptedSubscriber{}, "out", pub, PassthroughHandler)
 	}
-	vrt.Observe("seen", len(tr.ev))
-	vrt.Assert(ok, "publisher decorators act on outgoing messages in the order they were added")
-	vrt.Assert(len(pub.calls) == 1 && pub.calls[0].topic == "out" && len(pub.calls[0].msgs) == 1 && pub.calls[0].msgs[0] == msg, "the message reaches the real publisher once, unmodified")
+	for k, nm := range names {
+		h := r.handlers[nm]
+		vrt.Assert(r.decorateHandlerPublisher(h) == nil, "decorators applied")
+		tr.ev = nil
+		msg := NewMessage("m", nil)
+		vrt.Assert(h.publisher.Publish("out", msg) == nil, "publish through the decorated publisher")
+		ok := len(tr.ev) == n
+		for i := 0; ok && i < n; i++ {
+			if tr.ev[i] != i {
+				ok = false
+			}
+		}
+		vrt.Observe("seen", len(tr.ev))
+		vrt.Assert(ok, "publisher decorators act on outgoing messages in the order they were added, for every handler")
+		vrt.Assert(len(pub.calls) == k+1 && pub.calls[k].topic == "out" && len(pub.calls[k].msgs) == 1 && pub.calls[k].msgs[0] == msg, "the message reaches the real publisher once, unmodified")
+	}
 }
 
 // HarnessC09SubscriberDecorators: subscriber decorators see an incoming message in the order they were
